@@ -696,7 +696,7 @@ func (fg *FnGen) evalBin(x *CBin, env *CEnv) *Val {
 		} else if isNilVal(a) {
 			eq = fg.isNil(b)
 		} else {
-			eq = fg.valEq(a, b)
+			eq = fg.cValEq(a, b)
 		}
 		if x.Op == "!=" {
 			eq = Not(eq)
@@ -861,6 +861,13 @@ func (fg *FnGen) evalCall(x *CCall, env *CEnv) *Val {
 	case "arr":
 		v := fg.evalC(x.Args[0], env)
 		return &Val{T: tInt, L: []Term{v.L[0]}}
+	case "off":
+		// offset of a slice within its backing array
+		v := fg.evalC(x.Args[0], env)
+		if len(v.L) != 4 {
+			panic(unsupported("off() of a non-slice"))
+		}
+		return &Val{T: tInt, L: []Term{v.L[1]}}
 	case "fresh":
 		v := fg.evalC(x.Args[0], env)
 		return &Val{T: tBool, L: []Term{Ge(v.L[0], fg.get(env.old, "$alloc", SInt))}}
@@ -868,6 +875,13 @@ func (fg *FnGen) evalCall(x *CCall, env *CEnv) *Val {
 		// dynamic type tag of an interface value: tag(x) == typeid(T) is written istype(x, "pkg.T")
 		v := fg.evalC(x.Args[0], env)
 		return &Val{T: tInt, L: []Term{v.L[0]}}
+	case "payload":
+		// boxed value of an interface holding a single-leaf value (ints, pointers)
+		v := fg.evalC(x.Args[0], env)
+		if len(v.L) != 2 {
+			panic(unsupported("payload() of a non-interface value"))
+		}
+		return &Val{T: tInt, L: []Term{v.L[1]}}
 	case "istype":
 		v := fg.evalC(x.Args[0], env)
 		s, ok := x.Args[1].(*CStr)
@@ -897,7 +911,7 @@ func (fg *FnGen) evalCall(x *CCall, env *CEnv) *Val {
 		n.st = env.old
 		a := fg.evalC(x.Args[0], env)
 		b := fg.evalC(x.Args[0], &n)
-		return &Val{T: tBool, L: []Term{fg.valEq(a, b)}}
+		return &Val{T: tBool, L: []Term{fg.cValEq(a, b)}}
 	}
 	sf := fg.g.cs.Specs[id.Name]
 	if sf == nil {
@@ -955,6 +969,15 @@ func (fg *FnGen) evalCall(x *CCall, env *CEnv) *Val {
 		return &Val{T: rT, L: []Term{{f, rs}}}
 	}
 	return &Val{T: rT, L: []Term{app(f, rs, flat...)}}
+}
+
+// cValEq: equality in contract expressions. Slice headers are compared componentwise (Go itself only
+// allows comparison with nil).
+func (fg *FnGen) cValEq(a, b *Val) Term {
+	if _, isSlice := types.Unalias(a.T).Underlying().(*types.Slice); isSlice && a.Loc == nil && b.Loc == nil && len(a.L) == 4 && len(b.L) == 4 {
+		return And(Eq(a.L[0], b.L[0]), Eq(a.L[1], b.L[1]), Eq(a.L[2], b.L[2]), Eq(a.L[3], b.L[3]))
+	}
+	return fg.valEq(a, b)
 }
 
 func (fg *FnGen) evalLockPath(e CExpr, env *CEnv) (string, Term) {
@@ -1033,6 +1056,25 @@ func (fg *FnGen) evalMod(e CExpr, env *CEnv) []modEntry {
 						}
 						fg.compSort(comp, sort)
 					}
+				}
+				if !strings.Contains(comp, ".$") {
+					// ordinary field: one component per leaf of the field's type
+					if T := fg.g.resolveTypeString(path[:k], pkgPath); T != nil {
+						if st, ok := types.Unalias(T).Underlying().(*types.Struct); ok {
+							for i := 0; i < st.NumFields(); i++ {
+								if st.Field(i).Name() != path[k+1:] {
+									continue
+								}
+								var out []modEntry
+								for _, leaf := range layout(st.Field(i).Type()) {
+									fg.compSort(comp+leaf.Path, ArrSort(leaf.Sort))
+									out = append(out, modEntry{comp: comp + leaf.Path, whole: true, src: e.cstr()})
+								}
+								return out
+							}
+						}
+					}
+					panic(unsupported("allof(): unknown field " + path))
 				}
 				return []modEntry{{comp: comp, whole: true, src: e.cstr()}}
 			case "allmaps":
